@@ -116,3 +116,70 @@ pub fn compile_cmd(args: &[String]) -> i32 {
         }
     }
 }
+
+/// `sim prepare-js <outdir>`: the Node side's inputs, rebuilt from /repo's working tree:
+/// the type-stripped client runtime laid out as node_modules/@beff/client, a zod stub, and one
+/// finalized ES module per corpus project that compiles (module index in index.json).
+pub fn prepare_js(outdir: &str) -> i32 {
+    crate::session::install_panic_hook();
+    crate::coord::silence_stderr();
+    let src = format!("{}/packages/beff-client/src", repo());
+    let client = format!("{}/node_modules/@beff/client", outdir);
+    let esm = format!("{}/dist/esm", client);
+    let _ = std::fs::remove_dir_all(outdir);
+    std::fs::create_dir_all(&esm).expect("mkdir");
+    let mut names = vec![];
+    let rd = match std::fs::read_dir(&src) {
+        Ok(r) => r,
+        Err(e) => {
+            println!("HARNESS-ERROR: cannot read {}: {}", src, e);
+            return 2;
+        }
+    };
+    for e in rd {
+        let p = e.unwrap().path();
+        let n = p.file_name().unwrap().to_string_lossy().to_string();
+        if let Some(stem) = n.strip_suffix(".ts") {
+            let code = std::fs::read_to_string(&p).unwrap();
+            match crate::strip::strip_source(&n, code) {
+                Ok(js) => {
+                    std::fs::write(format!("{}/{}.js", esm, stem), js).unwrap();
+                    names.push(stem.to_string());
+                }
+                Err(e) => {
+                    println!("HARNESS-ERROR: {}", e);
+                    return 2;
+                }
+            }
+        }
+    }
+    names.sort();
+    let mut exports = serde_json::Map::new();
+    exports.insert(".".into(), serde_json::json!("./dist/esm/index.js"));
+    for n in &names {
+        exports.insert(format!("./{}", n), serde_json::json!(format!("./dist/esm/{}.js", n)));
+    }
+    std::fs::write(format!("{}/package.json", client), serde_json::to_string_pretty(&serde_json::json!({"name": "@beff/client", "type": "module", "exports": exports})).unwrap()).unwrap();
+    let zod = format!("{}/node_modules/zod", outdir);
+    std::fs::create_dir_all(&zod).unwrap();
+    std::fs::write(format!("{}/package.json", zod), "{\"name\":\"zod\",\"type\":\"module\",\"exports\":{\".\":\"./index.js\"}}").unwrap();
+    std::fs::write(format!("{}/index.js", zod), "export const z = { custom: (check, message) => ({ _stub: true, check, message }) };\nexport default z;\n").unwrap();
+    std::fs::write(format!("{}/package.json", outdir), "{\"type\":\"module\"}").unwrap();
+
+    let mods = format!("{}/mods", outdir);
+    std::fs::create_dir_all(&mods).unwrap();
+    let corpus = crate::plan::load_corpus(&crate::coord::corpus_path());
+    let mut index = vec![];
+    for p in &corpus {
+        let fr = fresh_process(&p.files, &p.entry, &p.settings, &Variant { hash_seed: 7, preregister: vec![], repeat: false, diag_first: false });
+        if let Some(code) = fr.first.code {
+            let full = finalize(&code, "esm", &p.settings.string_formats, &p.settings.number_formats);
+            let file = format!("{}/{}.mjs", mods, p.id);
+            std::fs::write(&file, full).unwrap();
+            index.push(serde_json::json!({"id": p.id, "file": file, "string_formats": p.settings.string_formats, "number_formats": p.settings.number_formats, "origin_kind": p.origin_kind}));
+        }
+    }
+    std::fs::write(format!("{}/index.json", outdir), serde_json::to_string_pretty(&index).unwrap()).unwrap();
+    println!("prepare-js: stripped {} runtime files, compiled {} of {} corpus projects", names.len(), index.len(), corpus.len());
+    0
+}
